@@ -687,7 +687,15 @@ func (e *Env) call(n *ast.CallExpr) *Val {
 		// dyn(v, T): payload of interface value v viewed as T
 		v := arg(0)
 		t := e.typeExpr(n.Args[1])
-		return c.unbox(nil, app("ival", v.Term), t)
+		res := c.unbox(nil, app("ival", v.Term), t)
+		if e.st != nil && c.quant == 0 && res.Term != "" {
+			switch t.Underlying().(type) {
+			case *types.Pointer, *types.Map:
+				// a reference held in an interface value points below the allocation frontier of the state it is read in
+				c.assumeAlways(implies(c.typeIs(v, t), app("<", res.Term, c.next(e.st))))
+			}
+		}
+		return res
 	case "asiface":
 		// asiface(x, I): the interface value of type I holding x (x of a concrete type)
 		v := arg(0)
